@@ -1,4 +1,5 @@
 import PBProofs.Lemmas.ManagedInv
+import PBProofs.Lemmas.ManagedStop
 /-
 C06 — A panic in managed code is contained, reported and leaves accounting intact.
 
@@ -147,7 +148,12 @@ theorem source_shape :
       ("errors.Is(err, ErrRestartNow)", "loop"), ("default", "backoff")] ∧
     PB.Gen.Managed.reportSend = "select-default" ∧
     PB.Gen.Managed.reportSeq = ["lock", "defer unlock", "last = me", "send", "stderr"] ∧
-    PB.Gen.Managed.apiRecoverSeq = ["new", "report", "if devMode { respond 500 detail } else { respond 500 plain }"] := by
+    PB.Gen.Managed.apiRecoverSeq = ["new", "report", "if devMode { respond 500 detail } else { respond 500 plain }"] ∧
+    -- `stopAllTasks` receives the stop routine's result into its own `err` — the one it reports to the pass — where
+    -- its wait ends by completion (blocking receive) and where it ends by the stop timeout (receive or give up)
+    PB.Gen.Managed.stopFetch = [("completed", "recv", "="), ("timeout", "select-default", "=")] ∧
+    PB.Gen.Managed.stopReportErr = "err" ∧
+    fetchAssigns "completed" = true ∧ fetchAssigns "timeout" = true := by
   decide
 
 /-- The report step, whatever the state of the channel (unset; capacity 0, 1, n; full; consumer reading,
@@ -239,29 +245,74 @@ theorem start_fails_when_start_panics (preps starts : List (Option Outcome)) (v 
   · rfl
   · exact this
 
-/-- Lifecycle: a management pass in which a stop or a start routine panics returns an error. -/
-theorem manage_fails_when_routine_panics (stops starts : List (Option Outcome)) (v : PCls)
-    (hp : some (.panic v) ∈ stops ∨ some (.panic v) ∈ starts) :
-    (manageResult (stops.map fun o => (runCtrl .stop o).1) (starts.map fun o => (runCtrl .ctrl o).1)).isSome = true := by
+/-- The two places where `stopAllTasks` fetches the stop routine's result: once the result is on the channel (the
+    routine's goroutine has reported, cleared the control flag, run its check and sent), the stopper's step — whether
+    its wait ends because `stopComplete` was closed or because the stop timeout fired (work of the module still
+    running) — puts exactly that result into the `err` it reports to the pass. For every result, in every state. -/
+theorem stop_result_fetched_on_both_paths (s : St) (i : Nat) (it : Item) (r : CtrlRet) (timeout : Bool)
+    (hit : s.items[i]? = some it) (hw : it.stopperWaiting = true) (hs : it.sent = true) (hc : it.cret = some r)
+    (hcomp : timeout = false → s.stopCompleted = true) :
+    ∃ s' it', step s (.stopper i timeout) = some s' ∧ s'.items[i]? = some it' ∧ it'.waited = some timeout ∧
+      it'.passErr = r ∧ it'.kind = it.kind ∧ it'.pc = it.pc ∧ s'.stopCompleted = s.stopCompleted := by
+  have hg : timeout = true ∨ (s.stopCompleted = true ∧ it.sent = true) := by
+    cases timeout
+    · exact Or.inr ⟨hcomp rfl, hs⟩
+    · exact Or.inl rfl
+  let it' : Item := { it with waited := some timeout, sawSent := it.sent, passErr := stopErr timeout it.sent it.cret }
+  refine ⟨{ s with items := s.items.set i it' }, it', ?_, set_getElem?_self hit, rfl, ?_, rfl, rfl, rfl⟩
+  · simp only [step, hit, hw, hg, and_self, if_true, it']
+  · simp only [it', hs, hc, stopErr_sent]
+
+/-- … so in every reachable state: a stop item whose routine panicked and whose stopper has left its wait reports the
+    panic error to the pass — after completion always, after a stop timeout whenever the routine's result was there
+    when the stopper looked (`sawSent`; a stop routine that is itself still executing when the timeout fires is
+    outside the statement: see the example below). -/
+theorem stop_panic_reaches_report (s : St) (h : Reachable s) (i : Nat) (it : Item) (v : PCls) (w : Bool)
+    (hit : s.items[i]? = some it) (hk : it.kind = .stop) (hf : it.hasFn = true) (hp : it.cur = .panic v)
+    (hw : it.waited = some w) (hsaw : w = true → it.sawSent = true) :
+    it.passErr = .panicMsg ∧ it.done = true := by
+  have hl := (reachable_inv h).loc i it hit
+  obtain ⟨p1, p2, p3⟩ := ((reachable_stopInv h).loc i it hit).pass w hw
+  have hss : it.sawSent = true := by
+    cases w
+    · exact p3 rfl
+    · exact hsaw rfl
+  have hpc : it.pc = 9 := ((reachable_stopInv h).loc i it hit).sentS hk (p2 hss)
+  have hc := hl.cretS hk hf (by omega)
+  rw [hp, recoverCtrl_panic] at hc
+  refine ⟨?_, by simp [Item.done, hk, hpc]⟩
+  rw [p1, hss, hc, stopErr_sent]
+
+/-- A module stopped on its own state (`runStop`): a panicking stop routine reaches the pass as a panic error and is
+    reported once, whether all work returns in time or a worker outlives the stop timeout. -/
+theorem stopped_module_reports_routine_panic (v : PCls) (linger : Bool) :
+    runStop (some (.panic v)) linger = (.panicMsg, [panicReport .ctrl v]) := runStop_panic v linger
+
+/-- Lifecycle: a management pass in which a stop routine (of a module whose work returns in time, or of one that
+    runs into its stop timeout) or a start routine panics returns an error. -/
+theorem manage_fails_when_routine_panics (stops : List (Option Outcome × Bool)) (starts : List (Option Outcome))
+    (v : PCls) (l : Bool) (hp : (some (.panic v), l) ∈ stops ∨ some (.panic v) ∈ starts) :
+    (manageResult (stops.map fun o => (runStop o.1 o.2).1) (starts.map fun o => (runCtrl .ctrl o).1)).isSome = true := by
   unfold manageResult
   split
   · rfl
   · rename_i hn
     rcases hp with hp | hp
-    · have hm : CtrlRet.panicMsg ∈ stops.map (fun o => (runCtrl .stop o).1) :=
-        List.mem_map.mpr ⟨_, hp, by rw [runCtrl_panic .stop (Or.inr rfl)]⟩
+    · have hm : CtrlRet.panicMsg ∈ stops.map (fun o => (runStop o.1 o.2).1) :=
+        List.mem_map.mpr ⟨_, hp, by rw [runStop_panic]⟩
       exact passLastErr_of_mem hm rfl
     · have hm : CtrlRet.panicMsg ∈ starts.map (fun o => (runCtrl .ctrl o).1) :=
         List.mem_map.mpr ⟨_, hp, by rw [runCtrl_panic .ctrl (Or.inl rfl)]⟩
       have := passFirstErr_of_mem hm rfl
       simp [hn] at this
 
-/-- Lifecycle: a stop routine that panics makes `Shutdown()` return an error. -/
-theorem shutdown_fails_when_stop_panics (stops : List (Option Outcome)) (v : PCls)
-    (hp : some (.panic v) ∈ stops) :
-    (shutdownResult (stops.map fun o => (runCtrl .stop o).1)).isSome = true := by
-  have hm : CtrlRet.panicMsg ∈ stops.map (fun o => (runCtrl .stop o).1) :=
-    List.mem_map.mpr ⟨_, hp, by rw [runCtrl_panic .stop (Or.inr rfl)]⟩
+/-- Lifecycle: a stop routine that panics makes `Shutdown()` return an error — also when a piece of work of that
+    module outlives the stop timeout (`true` in the second component), whatever the other modules do. -/
+theorem shutdown_fails_when_stop_panics (stops : List (Option Outcome × Bool)) (v : PCls) (l : Bool)
+    (hp : (some (.panic v), l) ∈ stops) :
+    (shutdownResult (stops.map fun o => (runStop o.1 o.2).1)).isSome = true := by
+  have hm : CtrlRet.panicMsg ∈ stops.map (fun o => (runStop o.1 o.2).1) :=
+    List.mem_map.mpr ⟨_, hp, by rw [runStop_panic]⟩
   exact passLastErr_of_mem hm rfl
 
 /-- The panicking routine itself is reported (as a panic of type "module-control") and leaves the module's
@@ -456,10 +507,58 @@ example :
     = some (true, 0, 0, 1, some (panicReport .worker .str)) := by
   rfl
 
+/-- A worker that ignores the stop (stays inside its function) and a stop routine that panics: the stop routine's
+    goroutine runs to its end, `stopComplete` stays open (worker count 1), the wait can only end by the timeout, the
+    non-blocking fetch finds the result; reported to the pass: the panic error. One panic report. -/
+example :
+    (run (St.init 8)
+      ([.spawn { kind := .startWorker }, .item 0 false,
+        .spawn { kind := .stop, outs := [.panic .str] }] ++ List.replicate 9 (.item 1 false) ++ [.stopper 1 true])).map
+      (fun s => (s.w, s.stopCompleted, s.feed, s.items.map (fun it => (it.done, it.waited, it.sawSent, it.passErr))))
+    = some (1, false, [panicReport .ctrl .str], [(false, none, false, .nil), (true, some true, true, .panicMsg)]) := by
+  rfl
+/-- … the completion branch is not enabled there (the channel is not closed) -/
+example :
+    (run (St.init 8)
+      ([.spawn { kind := .startWorker }, .item 0 false,
+        .spawn { kind := .stop, outs := [.panic .str] }] ++ List.replicate 9 (.item 1 false) ++ [.stopper 1 false])).isSome
+    = false := by
+  rfl
+/-- … and when everything returns, both ways of ending the wait give the same report -/
+example :
+    (run (St.init 8)
+      ([.spawn { kind := .stop, outs := [.panic .rt] }] ++ List.replicate 9 (.item 0 false) ++ [.stopper 0 false])).map
+      (fun s => (s.stopCompleted, s.items.map (fun it => (it.waited, it.passErr))))
+    = some (true, [(some false, .panicMsg)]) := by
+  rfl
+example :
+    (run (St.init 8)
+      ([.spawn { kind := .stop, outs := [.panic .rt] }] ++ List.replicate 9 (.item 0 false) ++ [.stopper 0 true])).map
+      (fun s => (s.stopCompleted, s.items.map (fun it => (it.waited, it.passErr))))
+    = some (true, [(some true, .panicMsg)]) := by
+  rfl
+/-- The proviso of `stop_panic_reaches_report`: a stop timeout that fires while the stop routine itself is still
+    executing finds nothing on the channel ("stop function is still running"): nil is reported to the pass, the
+    routine's later panic is reported on the error channel only. -/
+example :
+    (run (St.init 8)
+      ([.spawn { kind := .stop, outs := [.panic .str] }] ++ List.replicate 4 (.item 0 false) ++ [.stopper 0 true] ++
+        List.replicate 5 (.item 0 false))).map
+      (fun s => (s.feed, s.items.map (fun it => (it.done, it.cret, it.waited, it.sawSent, it.passErr))))
+    = some ([panicReport .ctrl .str], [(true, some .panicMsg, some true, false, .nil)]) := by
+  rfl
+/-- the stopper of a stop routine that has not been started yet is not waiting -/
+example :
+    (run (St.init 8) [.spawn { kind := .stop, outs := [.ok] }, .item 0 false, .stopper 0 true]).isSome = false := by
+  rfl
+
 /-- Lifecycle passes: a panicking start routine among healthy ones, a panicking stop routine. -/
 example : startResult ([some .ok, none].map fun o => (runCtrl .ctrl o).1)
     ([some .ok, some (.panic .str), none].map fun o => (runCtrl .ctrl o).1) = some .panicMsg := by rfl
-example : shutdownResult ([some .ok, some (.panic .rt), none].map fun o => (runCtrl .stop o).1) = some .panicMsg := by
+example : shutdownResult ([(some .ok, false), (some (.panic .rt), true), (none, false)].map fun o => (runStop o.1 o.2).1)
+    = some .panicMsg := by
   rfl
+example : (runStop (some .err) true).1 = .err ∧ (runStop none true).1 = .nil ∧ (runStop (some .ok) false).1 = .nil := by
+  refine ⟨rfl, rfl, rfl⟩
 
 end PB.C06
